@@ -1045,6 +1045,7 @@ def _tile_run(prog, entry_variant, entry="read_tag"):
                 return
             gset(c.st, "data0", cu)
             gset(c.st, "size", szl)
+            c.st.ghost["payload_requested"] = 1
             check("the payload read is as long as the size declared in the header", "read_tag: call of read_tag_data", c.st.entails_eq(szl - LinForm.var(G["hsize"])))
 
     def only(st, cell, path, idx):
@@ -1098,6 +1099,10 @@ def _tile_run(prog, entry_variant, entry="read_tag"):
                 if not ok2 and isinstance(arr, Arr):
                     b = s3.lin_bounds(LinForm.var(G["size"]))
                     ok2 = arr.len.is_const() and b[0] == b[1] == arr.len.lo
+                if not ok2 and isinstance(sl, Struct) and sl.path.startswith("std::ops::Range") and len(sl.fields) == 2:
+                    # the payload handed back as a range of buffer indices (the caller slices): its extent is the declared size
+                    base = (r0, (("v", 0), 0, ("v", 1), 0))
+                    ok2 = s3.entails_eq(LinForm.var((base[0], base[1] + (1,))) - LinForm.var((base[0], base[1] + (0,))) - LinForm.var(G["size"]))
                 check("the payload slice is exactly `size` bytes long", "read_tag_data Ok(Some) exit", ok2)
             s4 = only(s2, r0, (("v", 0), 0), 0)
             if s4 is not None:
@@ -1192,12 +1197,17 @@ def _tile_run(prog, entry_variant, entry="read_tag"):
     def on_index(call=None, arr_loc=None, index=None, index_lin=None, st=None, kind=None, **kw):
         if kind != "range" or arr_loc is None:
             return
-        if entry == "read_tag" and call.frame.body.path == ITER + "::read_tag_data" and arr_loc[0] == sc["c"] and arr_loc[1][:1] == (ix["buffer"],):
+        if entry == "read_tag" and arr_loc[0] == sc["c"] and arr_loc[1][:1] == (ix["buffer"],) and st.ghost.get("payload_requested"):
+            # the payload slice: taken by the routine that fetches the payload, or by its caller from a range that routine returned.  Other
+            # slices of the buffer taken after the payload was requested (the partial data of a truncated element) do not end at the cursor.
             sl, el = index_lin
             cu = cur(st)
-            ok = sl is not None and el is not None and cu is not None and st.entails_eq(el - V("internal_buffer_position")) and \
-                st.entails_eq(el - sl - LinForm.var(G["size"])) and st.entails_eq(cu - LinForm.var(G["data0"]) - LinForm.var(G["size"]))
-            check("the payload handed to the decoder is the `size` bytes that start where the header ended", "read_tag_data: slice of the buffer", ok)
+            in_fetcher = call.frame.body.path == ITER + "::read_tag_data"
+            ends_at_cursor = el is not None and st.entails_eq(el - V("internal_buffer_position"))
+            if in_fetcher or ends_at_cursor:
+                ok = sl is not None and el is not None and cu is not None and ends_at_cursor and \
+                    st.entails_eq(el - sl - LinForm.var(G["size"])) and st.entails_eq(cu - LinForm.var(G["data0"]) - LinForm.var(G["size"]))
+                check("the payload handed to the decoder is the `size` bytes that start where the header ended", "slice of the buffer after the payload was fetched", ok)
             return
         if entry != "peek_tag_id":
             return
